@@ -14,7 +14,7 @@ import MindsVerif.Gen.Reserved
   at the end of the printed literal; false in general: `C07_witness_tostring`.
 -/
 namespace MindsVerif.Props.C07
-open MindsVerif MindsVerif.Py MindsVerif.Lex MindsVerif.Denote MindsVerif.Literal MindsVerif.Render MindsVerif.Gen
+open MindsVerif MindsVerif.Py MindsVerif.Lex MindsVerif.Denote MindsVerif.Literal MindsVerif.LitRender MindsVerif.Gen
 
 /-- full statement for a target reader `lexer` and a renderer `render` -/
 def C07_full (render : List Char → List Char) (lexer : List Char → Option (List Char × List Char)) : Prop :=
